@@ -141,6 +141,24 @@ def run(ctx):
               "a section loop can be left early at %s and decoding goes on (fewer records than the header says are accepted)" % [md.loc(a) for h, a, s_ in early],
               md.loc(early[0][1]) if early else md.loc())
 
+    # the fixed-layout parts (header, counts, question) are rejected only because a read ran out of octets: every error
+    # built there sits on the None edge of a cursor primitive (a 12-octet message is a complete header)
+    n_fix = 0
+    for key_ in (DES + "<impl dns_types::protocol::types::Message>::deserialise", DES + "<impl dns_types::protocol::types::Header>::deserialise"):
+        g_ = prog.fn(key_)
+        gr_ = A.Resolver(g_)
+        gc_ = A.Conds(g_, gr_)
+        read_failed = lambda fc: fc[0] == "is" and fc[1] == "None" and A.peel(fc[2])[0] == "call" and A.peel(fc[2])[1].startswith(CB + "next_")
+        for b_, i_, st_ in A.aggregates(g_, "std::result::Result", "Err"):
+            pv_ = A.peel(gr_.operand(st_["rv"]["ops"][0], (b_, i_)))
+            if pv_[0] != "agg" or pv_[1] != DES + "Error":
+                continue
+            n_fix += 1
+            okf_, _ = gc_.guarded(b_, read_failed)
+            ctx.check(okf_, "C03.6", "%s:error-only-from-failed-read#%d" % (A.short(g_.key), n_fix), "an error of the fixed-layout part is raised only when a read found no octets",
+                      "%s can reject input although every read succeeded (e.g. a message that is just a header)" % A.short(g_.key), g_.loc(b_, i_))
+    ctx.floor("C03.6", "errors built in Message / Header deserialise", n_fix, 3)
+
     # ---------------------------------------------------------------- C03.3
     fkeys = {f.key for f in fns}
     edges = {}
